@@ -20,6 +20,12 @@ from ..topo import REF, KIND_OF_CLASS
 from . import c10
 
 ID = 'C01'
+# sub-checks added after the seeded-change waves (DESIGN.md sections 5 and 6)
+EXTENSIONS = [
+    'independent reconstruction of the basis object; user parameters overriding defaults; relative-only tolerances on tiny / huge geometry scales',
+    'coefficient vectors of float32 / integer / complex64 dtype; vector- and tensor-valued functionals; functionals built without dtype; nthreads in {1, 2, 3}',
+    'cell / facet subsets named as int64, list, negative indices; omitted arguments equal the documented defaults given explicitly',
+]
 LEVEL = 'exploration'
 TECHNIQUE = "small-scope exhaustive enumeration (mesh x trial/test pair x basis kind x integrand grammar) with a three-route differential oracle over all unit vectors"
 LEVEL_TEXT = ("For small irregular meshes of every class (plain, renumbered, mirrored, curved second order) the check enumerates "
